@@ -166,8 +166,8 @@ class Setup:
             self.vdims = gen.rand_vdims(rng, nv)
             labels = self.vdims or gen.default_vdims(nv)
             self.labels = labels
-            self.mapping = {labels[j]: (None if axes[j] is None else names[axes[j]])
-                            for j in range(nv)}
+            self.mapping = gen.shuffle_keys(
+                rng, {labels[j]: (None if axes[j] is None else names[axes[j]]) for j in range(nv)})
             if unmapped and self.unmapped_how == "empty":
                 self.mapping = {}
             self.axes = axes
